@@ -56,13 +56,28 @@ pub fn c14_out_routes(kind: Kind, t: &[u8]) -> Guard<Vec<(&'static str, Vec<u8>)
 		Kind::RiRef => routes!(RiRef, RiRefBuf, RiRef::new(s).ok().unwrap(), RiRefBuf::new(own(t.to_vec()).unwrap()).ok().unwrap(), true, |_r: &RiRef, _o: &RiRefBuf| Vec::new()),
 		Kind::Scheme => routes!(Scheme, SchemeBuf, Scheme::new(t).ok().unwrap(), SchemeBuf::new(t.to_vec()).ok().unwrap(), true, |_r: &Scheme, _o: &SchemeBuf| Vec::new()),
 		Kind::Authority => routes!(Authority, AuthorityBuf, Authority::new(s).ok().unwrap(), AuthorityBuf::new(own(t.to_vec()).unwrap()).ok().unwrap(), true, |_r: &Authority, _o: &AuthorityBuf| Vec::new()),
-		Kind::UserInfo => routes!(UserInfo, UserInfoBuf, UserInfo::new(s).ok().unwrap(), UserInfoBuf::new(own(t.to_vec()).unwrap()).ok().unwrap(), true, |_r: &UserInfo, _o: &UserInfoBuf| Vec::new()),
-		Kind::Host => routes!(Host, HostBuf, Host::new(s).ok().unwrap(), HostBuf::new(own(t.to_vec()).unwrap()).ok().unwrap(), true, |_r: &Host, _o: &HostBuf| Vec::new()),
+		Kind::UserInfo => routes!(UserInfo, UserInfoBuf, UserInfo::new(s).ok().unwrap(), UserInfoBuf::new(own(t.to_vec()).unwrap()).ok().unwrap(), true, |r: &UserInfo, o: &UserInfoBuf| {
+			// the percent-encoded views are routes out too: they hold the same text
+			vec![("as_pct_str", r.as_pct_str().as_str().as_bytes().to_vec()), ("into_pct_string(owned)", o.clone().into_pct_string().as_str().as_bytes().to_vec())]
+		}),
+		Kind::Host => routes!(Host, HostBuf, Host::new(s).ok().unwrap(), HostBuf::new(own(t.to_vec()).unwrap()).ok().unwrap(), true, |r: &Host, o: &HostBuf| {
+			// the percent-encoded views are routes out too: they hold the same text
+			vec![("as_pct_str", r.as_pct_str().as_str().as_bytes().to_vec()), ("into_pct_string(owned)", o.clone().into_pct_string().as_str().as_bytes().to_vec())]
+		}),
 		Kind::Port => routes!(Port, PortBuf, Port::new(t).ok().unwrap(), PortBuf::new(t.to_vec()).ok().unwrap(), true, |_r: &Port, _o: &PortBuf| Vec::new()),
 		Kind::Path => routes!(Path, PathBuf, Path::new(s).ok().unwrap(), PathBuf::new(own(t.to_vec()).unwrap()).ok().unwrap(), true, |_r: &Path, _o: &PathBuf| Vec::new()),
-		Kind::Segment => routes!(Segment, SegmentBuf, Segment::new(s).ok().unwrap(), SegmentBuf::new(own(t.to_vec()).unwrap()).ok().unwrap(), true, |_r: &Segment, _o: &SegmentBuf| Vec::new()),
-		Kind::Query => routes!(Query, QueryBuf, Query::new(s).ok().unwrap(), QueryBuf::new(own(t.to_vec()).unwrap()).ok().unwrap(), true, |_r: &Query, _o: &QueryBuf| Vec::new()),
-		Kind::Fragment => routes!(Fragment, FragmentBuf, Fragment::new(s).ok().unwrap(), FragmentBuf::new(own(t.to_vec()).unwrap()).ok().unwrap(), true, |_r: &Fragment, _o: &FragmentBuf| Vec::new()),
+		Kind::Segment => routes!(Segment, SegmentBuf, Segment::new(s).ok().unwrap(), SegmentBuf::new(own(t.to_vec()).unwrap()).ok().unwrap(), true, |r: &Segment, _o: &SegmentBuf| {
+			// (SegmentBuf has no into_pct_string)
+			vec![("as_pct_str", r.as_pct_str().as_str().as_bytes().to_vec())]
+		}),
+		Kind::Query => routes!(Query, QueryBuf, Query::new(s).ok().unwrap(), QueryBuf::new(own(t.to_vec()).unwrap()).ok().unwrap(), true, |r: &Query, o: &QueryBuf| {
+			// the percent-encoded views are routes out too: they hold the same text
+			vec![("as_pct_str", r.as_pct_str().as_str().as_bytes().to_vec()), ("into_pct_string(owned)", o.clone().into_pct_string().as_str().as_bytes().to_vec())]
+		}),
+		Kind::Fragment => routes!(Fragment, FragmentBuf, Fragment::new(s).ok().unwrap(), FragmentBuf::new(own(t.to_vec()).unwrap()).ok().unwrap(), true, |r: &Fragment, o: &FragmentBuf| {
+			// the percent-encoded views are routes out too: they hold the same text
+			vec![("as_pct_str", r.as_pct_str().as_str().as_bytes().to_vec()), ("into_pct_string(owned)", o.clone().into_pct_string().as_str().as_bytes().to_vec())]
+		}),
 	}
 }
 
